@@ -52,6 +52,8 @@ REQUIRED = [
     "handler_let_timeout_escape",
     "listener:scripted",
     "listener:real-protocol",
+    "backpressure_cases",
+    "backpressure_other_client_resumed_after_an_abandoned_reply",
 ]
 WATCHDOG = {"quick": 900, "thorough": 7200}
 EPS = 0.05
@@ -317,6 +319,157 @@ def run_script(sc: dict) -> dict:
     return res
 
 
+def backpressure_case(rng: random.Random) -> tuple[dict, str | None, dict]:
+    """replies under back-pressure: the real asyncio listener adapter (all clients of a UDP server share its write flow control) over a
+    transport whose pause_writing()/resume_writing() notifications are scripted. Some clients bound their reply with
+    move_on_after(); that one client's reply is abandoned must not disturb the others: after the congestion ends every handler
+    parked in its reply goes on, and every datagram of every client is handled exactly once, in order"""
+    from easynetwork.lowlevel.api_async.backend._asyncio.datagram.listener import DatagramListenerProtocol, DatagramListenerSocketAdapter
+
+    A = rng.randint(2, 4)
+    sc = {
+        "A": A,
+        "n": [rng.randint(1, 3) for _ in range(A)],
+        "reply_timeout": [rng.choice([None, None, 0.5, 1.0]) for _ in range(A)],
+        "stagger": [rng.choice([0, 0, 0.1, 0.2]) for _ in range(A)],
+        "pause_at": rng.choice([0.0, 0.05, 0.15]),
+        "resume_at": rng.choice([0.3, 0.75, 1.5, 3.0]),
+        "second_pause": rng.random() < 0.3,
+        "self_pause": rng.random() < 0.5,
+    }
+    if all(t is None for t in sc["reply_timeout"]):
+        sc["reply_timeout"][rng.randrange(A)] = rng.choice([0.5, 1.0])
+    if all(t is not None for t in sc["reply_timeout"]):
+        sc["reply_timeout"][rng.randrange(A)] = None
+    log: list = []
+    res: dict[str, Any] = {"log": log}
+
+    async def main(loop):
+        import socket as _s
+
+        backend = AsyncIOBackend()
+        sock = _s.socket(_s.AF_INET, _s.SOCK_DGRAM)
+        sock.bind(("127.0.0.1", 0))
+        state = {"paused": False, "want_pause": False}
+
+        class FakeTransport(asyncio.DatagramTransport):
+            def __init__(self):
+                super().__init__()
+                self.sent = []
+                self._closing = False
+
+            def sendto(self, data, addr=None):
+                self.sent.append((bytes(data), addr))
+                if state["want_pause"] and not state["paused"]:
+                    # this very datagram crosses the high-water mark: asyncio queues it and pauses the protocol from inside sendto()
+                    state["paused"] = True
+                    dproto.pause_writing()
+
+            def get_extra_info(self, name, default=None):
+                return sock if name == "socket" else default
+
+            def is_closing(self):
+                return self._closing
+
+            def close(self):
+                self._closing = True
+                loop.call_soon(dproto.connection_lost, None)
+
+            def abort(self):
+                self.close()
+
+            def get_write_buffer_size(self):
+                return 0
+
+            def get_write_buffer_limits(self):
+                return (0, 0)
+
+            def set_write_buffer_limits(self, high=None, low=None):
+                pass
+
+        dproto = DatagramListenerProtocol(loop=loop)
+        ft = FakeTransport()
+        dproto.connection_made(ft)
+        listener = DatagramListenerSocketAdapter(backend, ft, dproto)
+        server = AsyncDatagramServer(listener, DatagramProtocol(StringLineSerializer()))
+        t0 = loop.time()
+
+        def now():
+            return round(loop.time() - t0, 4)
+
+        async def handler(ctx):
+            a = ctx.address[1]
+            while True:
+                req = yield
+                seq = int(req.split(":")[1])
+                log.append(("req", a, seq, now()))
+                rt = sc["reply_timeout"][a]
+                try:
+                    if rt is None:
+                        await ctx.server.send_packet_to(req, ctx.address)
+                        log.append(("replied", a, seq, now()))
+                    else:
+                        with backend.move_on_after(rt) as scope:
+                            await ctx.server.send_packet_to(req, ctx.address)
+                        log.append(("reply-abandoned" if scope.cancelled_caught() else "replied", a, seq, now()))
+                except BaseException as exc:  # noqa: BLE001
+                    log.append(("reply-failed", a, seq, now(), type(exc).__name__, bool(res.get("stopping"))))
+                    raise
+
+        def pause():
+            if sc["self_pause"]:
+                state["want_pause"] = True
+            elif not state["paused"]:
+                state["paused"] = True
+                dproto.pause_writing()
+
+        def resume():
+            state["want_pause"] = False
+            if state["paused"]:
+                state["paused"] = False
+                dproto.resume_writing()
+
+        serve = asyncio.ensure_future(server.serve(handler))
+        await asyncio.sleep(0)
+        loop.call_at(t0 + sc["pause_at"], pause)
+        loop.call_at(t0 + sc["resume_at"], resume)
+        if sc["second_pause"]:
+            loop.call_at(t0 + sc["resume_at"] + 0.5, pause)
+            loop.call_at(t0 + sc["resume_at"] + 2.5, resume)
+        for a in range(A):
+            for j in range(sc["n"][a]):
+                loop.call_at(t0 + sc["stagger"][a] + 0.1 * j, dproto.datagram_received, f"a{a}:{j}".encode(), ("127.0.0.1", a))
+        await asyncio.sleep(sc["resume_at"] + 12)
+        res["serve_done"] = serve.done()
+        res["stopping"] = True
+        serve.cancel()
+        await asyncio.gather(serve, return_exceptions=True)
+        await server.aclose()
+        sock.close()
+        res["sent"] = len(ft.sent)
+
+    try:
+        vloop.run(main)
+    except vloop.Quiescent as exc:
+        return sc, f"deadlock: {exc}", res
+    if res.get("serve_done"):
+        return sc, "serve() ended by itself", res
+    for a in range(sc["A"]):
+        seen = [e[2] for e in log if e[0] == "req" and e[1] == a]
+        if seen != list(range(sc["n"][a])):
+            stuck = [e for e in log if e[0] == "req" and e[1] == a and not any(f[0] in ("replied", "reply-abandoned", "reply-failed") and f[1] == a and f[2] == e[2] and not (f[0] == "reply-failed" and f[5]) for f in log)]
+            extra = f"; its handler never came back from the reply to datagram #{stuck[0][2]} although the transport resumed writing at t={sc['resume_at']}" if stuck else ""
+            return sc, f"client {a} sent datagrams {list(range(sc['n'][a]))}, its handler saw {seen}{extra} (reply timeouts per client: {sc['reply_timeout']})", res
+        for e in log:
+            if e[0] == "reply-failed" and e[1] == a and not e[5]:
+                return sc, f"client {a}: the reply to datagram #{e[2]} failed with {e[4]} at t={e[3]} although nobody cancelled this client's handler (reply timeouts per client: {sc['reply_timeout']}): another client's abandoned reply broke it", res
+        if sc["reply_timeout"][a] is None:
+            done = [e[2] for e in log if e[0] == "replied" and e[1] == a]
+            if done != list(range(sc["n"][a])):
+                return sc, f"client {a} (no reply timeout): replies completed for {done} of {sc['n'][a]} datagrams", res
+    return sc, None, res
+
+
 def decide(sc: dict, res: dict, ctx=None) -> str | None:
     if res.get("deadlock"):
         return f"deadlock: {res['deadlock']}"
@@ -435,9 +588,24 @@ def run_shard(params: dict, ctx) -> None:
             ctx.violation(f"{cat}:{sc['listener']}", why, {"script": sc, "log_tail": [list(map(str, e)) for e in res["log"][-14:]]})
         if i == 0:
             ctx.sample(sc)
+        if i % 4 == 3:
+            bsc, bwhy, bres = backpressure_case(rng)
+            ctx.case(True, "backpressure", repr(bsc))
+            ctx.count("backpressure_cases")
+            blog = bres["log"]
+            if any(e[0] == "reply-abandoned" for e in blog):
+                ctx.count("backpressure_reply_abandoned_by_its_timeout")
+                if any(e[0] == "replied" and e[3] >= bsc["resume_at"] - EPS for e in blog):
+                    ctx.count("backpressure_other_client_resumed_after_an_abandoned_reply")
+            if bwhy:
+                cat = "deadlock" if "deadlock" in bwhy else "cross-client-failure" if "another client" in bwhy else "fifo-or-loss"
+                ctx.violation(f"{cat}:backpressure", bwhy, {"backpressure": bsc, "log_tail": [list(map(str, e)) for e in blog[-14:]], "seed": params["seed"], "index": i})
 
 
 def replay(witness: dict, ctx) -> None:
+    if "backpressure" in witness:
+        run_shard({"seed": witness["seed"], "scripts": witness["index"] + 1}, ctx)
+        return
     sc = witness["script"]
     res = run_script(sc)
     why = decide(sc, res, None)
